@@ -809,6 +809,9 @@ def version_writers(ctx):
                     ok = True
                 elif isinstance(v, ast.Call) and norm(v.func) == 'to_bytes' and len(v.args) == 1 and norm(v.args[0]) == 'version':
                     ok = True
+                elif isinstance(v, ast.IfExp) and all((isinstance(b, ast.Name) and b.id == 'version') or (isinstance(b, ast.Call) and norm(b.func) == 'to_bytes' and len(b.args) == 1 and norm(b.args[0]) == 'version')
+                                                       for b in (v.body, v.orelse)):
+                    ok = True       # the value as given, or the same value through to_bytes: no byte order involved
                 elif isinstance(v, ast.Subscript) and txt.endswith('[::-1]'):
                     ok = False
                 ctx.saw('%s: %s = %s' % (qual, norm(t), txt))
@@ -1202,3 +1205,43 @@ def dict_reader_restores(ctx):
     p_ = g.path_avoiding(exits, via=restores, start=reads[0])
     ctx.require(p_ is None, q, 'after reading from self.txs_data the method can return without restoring the stream it saved before (%s)' % (g.describe_path(p_) if p_ else ''), fn,
                 'Block.parse(limit=k) followed by parse_transactions_dict() and parse_transactions(): the object reader restarts at transaction 0 - the first transactions twice, the last ones never, serialize() differs from the bytes parsed')
+
+
+@PROP.obligation('C06.raw-header-fields', canaries=[
+    mut.replace_expr('blocks', 'Block.__init__', 'nonce if isinstance(nonce, bytes) and len(nonce) == 4 else to_bytes(nonce)', 'to_bytes(nonce)', 'raw nonce passed through the hex-sniffing normaliser'),
+    mut.replace_expr('blocks', 'Block.__init__', 'bits if isinstance(bits, bytes) and len(bits) == 4 else to_bytes(bits)', 'to_bytes(bits)', 'raw bits passed through the hex-sniffing normaliser'),
+])
+def raw_header_fields(ctx):
+    """encoding.to_bytes reads bytes that consist of ASCII hex digits as a hexadecimal STRING (b'dcba' -> ab cd). Block.parse hands the raw
+    header fields it read from the stream to Block.__init__; the constructor, evaluated with 4-byte fields made of such characters (one
+    nonce in 18000 is) and 32-byte hashes, stores every field exactly as given - version, bits, nonce 4 bytes, the hashes 32 bytes."""
+    q = 'blocks:Block.__init__'
+    fn = ctx.repo.func(q)
+    a = fn.args
+    names = [x.arg for x in a.args]
+    defaults = {}
+    for n_, d in zip(names[len(names) - len(a.defaults):], a.defaults):
+        try:
+            defaults[n_] = ast.literal_eval(d)
+        except Exception:
+            defaults[n_] = S(('var', n_))
+    fields = {'block_hash': b'0123456789abcdef0123456789abcdef', 'version': b'1000', 'prev_block': b'a' * 32, 'merkle_root': b'\x22' * 32, 'bits': b'1d00', 'nonce': b'dcba'}
+    args = dict(defaults)
+    args.update(fields)
+    args.update({'self': S(SELF), 'time': 1600000000, 'network': 'bitcoin'})
+    it = Interp(ctx.repo, 'blocks', hooks={'Network': lambda it_, a_, kw, st, node: S(('var', 'net'))}, self_cls='blocks:Block', inline=['to_bytes'])
+    try:
+        exits = it.run_function(fn, {k: v for k, v in args.items() if k in names})
+    except AnalysisError as e:
+        ctx.undecided('Block.__init__ not evaluable on raw header fields: %s' % str(e)[:100])
+    rets = [e for e in exits if e.kind == 'return']
+    if len(rets) != 1:
+        ctx.undecided('Block.__init__ on raw header fields: %d normal exits' % len(rets))
+    n = 0
+    for k, v in sorted(fields.items()):
+        got = rets[0].heap.get(A(SELF, k))
+        n += 1
+        ctx.saw('%s given as %r -> stored %s' % (k, v[:8], show(term(got))[:40]))
+        ctx.require(got == v, q, 'the raw header field %s = %r is stored as %s' % (k, v[:12], show(term(got))[:50]), fn,
+                    "a block whose nonce bytes are b'dcba' parses with nonce ab cd (2 bytes): nonce_int is wrong and serialize() raises - about one header in 18000")
+    ctx.floor(n, 6, 'header fields')
